@@ -7,7 +7,7 @@
    destroyed exactly once or handed back exactly once. *)
 From Coq Require Import List NArith Permutation.
 From Truc.Model Require Import Layout Builder Ir Gen Exec Ops.
-From Truc.Proofs Require Import ExecP Holds Life.
+From Truc.Proofs Require Import ExecP Holds Life Chain.
 From Truc.Current Require Runtime.
 Import ListNotations.
 
@@ -58,6 +58,21 @@ Print Assumptions C06_drop.
 Print Assumptions C06_lifecycle_drop.
 Print Assumptions C06_lifecycle_unpack.
 Print Assumptions C06_conversion_drops.
+
+(* the whole life across variants: a record created in variant P, carried through ANY number of conversions
+   (complete forms; removed data handed back or not), with ANY reads and writes on each variant in between,
+   finally dropped: what was destroyed (d by writes and conversions, `dropped` by Drop) plus what conversions
+   handed back (r) is, as a multiset, exactly what entered - at creation, by a write, or as an added field.
+   No step faults. *)
+Theorem C06_whole_life : forall ds TI rt A cap, rt_ok rt = true ->
+  forall (stages : list stage) P vals b v,
+  layout_ok ds TI A cap P -> chain_ok ds TI A cap P stages -> holds ds TI cap A P vals b ->
+  layout_ok ds TI A cap (last_data P stages) ->
+  exists bf d r dropped, chain_run ds TI rt A cap b stages = Ok (bf, d, r) /\
+    op_drop ds TI rt A cap v (last_data P stages) bf = Ok (ONone, dropped) /\
+    Permutation (d ++ dropped ++ r) (map vals (filter (dr ds TI) P) ++ entered ds TI stages).
+Proof. intros ds TI rt A cap RT. exact (chain_then_drop ds TI rt A cap RT). Qed.
+Print Assumptions C06_whole_life.
 
 Theorem C06_current : rt_ok Runtime.exec_rt = true.
 Proof. reflexivity. Qed.
